@@ -298,7 +298,7 @@ def make_config(variant):
                       encodes=[Sampler.__init__, config_mod.SamplerConfig.__post_init__, config_mod.SamplerConfig.validate, core_mod.SamplerCore.__init__],
                       bounds="n_dim in [-2,3], n_particles in [-2,4] or None, ess_ratio/volume_variation real in [-2,3] or None, "
                              f"sample/resample arbitrary strings, vectorize symbolic, periodic list length {has_per}, reflective list length {has_ref} with entries in [-1,3]",
-                      theory="QF_LIA/LRA/S", max_paths=20000)
+                      theory="QF_LIA/LRA/S", max_paths=90000)
 
 
 def make_nonnumeric():
